@@ -57,7 +57,7 @@ package forkexec
 //@   assume #int forall j int :: K.fdt[j] != 0 ==> K.clo[j]
 //@   assume K.fdt[p[1]] != 0
 //@   assume #int forall k int :: 0 <= k && k < len(r.Files) ==> r.Files[k] != p[0]
-//@   assigns K.fdt, K.clo, K.pid, K.secbits, K.caps_empty, K.nnp, K.filter, K.filter_flags, K.uid, K.uid_set, K.gid, K.gid_set, K.groups_set, K.ngroups, K.groups_ptr, K.sid_new, K.ctty, K.cwd, K.host, K.hostlen, K.host_issued, K.domain, K.domainlen, K.domain_issued, K.clone_flags, K.clone3, K.clone_cgroup, K.mnt_src, K.mnt_type, K.mnt_flags, K.mnt_data, K.mnt_done, K.remount, K.remount_done, K.nmount, K.pivoted, K.pivot_new, K.pivot_old, K.old_detached, K.old_removed, K.rl_cur, K.rl_max, K.rl_set, K.traceme, K.stopped_self, K.sync_stage, K.sync_wfile, K.sync_rfile, K.idmap_read, K.unshare_cgroup_issued, K.last_trap, K.last_errno, K.reported, K.reported_loc, K.reported_err, K.reported_idx, K.exec_attempts
+//@   assigns K.fdt, K.clo, K.pid, K.secbits, K.caps_empty, K.nnp, K.filter, K.filter_flags, K.uid, K.uid_set, K.gid, K.gid_set, K.groups_set, K.ngroups, K.groups_ptr, K.sid_new, K.ctty, K.cwd, K.host, K.hostlen, K.host_issued, K.domain, K.domainlen, K.domain_issued, K.clone_flags, K.clone3, K.clone_cgroup, K.mnt_src, K.mnt_type, K.mnt_flags, K.mnt_data, K.mnt_done, K.remount, K.remount_done, K.nmount, K.pivoted, K.pivot_new, K.pivot_old, K.old_detached, K.old_removed, K.rl_cur, K.rl_max, K.rl_set, K.traceme, K.stopped_self, K.sync_stage, K.sync_wfile, K.sync_rfile, K.idmap_read, K.idmap_status, K.unshare_cgroup_issued, K.last_trap, K.last_errno, K.reported, K.reported_loc, K.reported_err, K.reported_idx, K.exec_attempts
 //@   ensures #int err1 == 0 ==> r1 < 4194305
 //@   loop 0: invariant #int nextfd > len(fd) && nextfd + ite(pipe >= nextfd, 1, 0) <= 2147483651
 //@   loop 0: invariant #int forall k int :: 0 <= k && k < len(fd) ==> fd[k] < nextfd
@@ -108,7 +108,7 @@ package forkexec
 
 // ---- bv mode: the security state at the exec point (every option combination; every call may fail) ----
 // Initial ghost state of a freshly cloned child (inherits nothing of these from the model's point of view).
-//@   assume K.sync_stage == 0
+//@   assume K.sync_stage == 0 && !K.idmap_read
 //@   assume #bv K.filter == 0 && !K.nnp && !K.caps_empty && K.sync_stage == 0 && !K.sid_new && !K.ctty && !K.pivoted && !K.old_detached && !K.old_removed && !K.traceme && !K.stopped_self && !K.uid_set && !K.gid_set && !K.groups_set && !K.host_issued && !K.domain_issued
 //@   loop 0: invariant #bv true
 //@   loop 1: invariant #bv pre_shuffle_ok()
@@ -153,7 +153,7 @@ package forkexec
 // ---- predicates over the ghost child state K (expanded where used) ----
 // 2114060288 = UnshareFlags (NEWIPC|NEWNET|NEWNS|NEWPID|NEWUSER|NEWUTS|NEWCGROUP); securebits NOROOT|NOROOT_LOCKED = 3
 //@ macro creds_ok() = old(r.Credential) != nil ==> K.uid_set && K.uid == uintptr(old(r.Credential.Uid)) && K.gid_set && K.gid == uintptr(old(r.Credential.Gid)) && ((!(old(r.GIDMappings) != nil && !old(r.GIDMappingsEnableSetgroups) && len(old(r.Credential.Groups)) == 0) && !old(r.Credential.NoSetGroups)) ==> K.groups_set && K.ngroups == uintptr(len(old(r.Credential.Groups))))
-//@ macro base_ok() = creds_ok() && K.filter == 0 && !K.nnp && !K.caps_empty && K.sync_stage == 0 && !K.traceme && !K.stopped_self && pid == K.pid
+//@ macro base_ok() = (K.idmap_read ==> K.idmap_status == 0) && creds_ok() && K.filter == 0 && !K.nnp && !K.caps_empty && K.sync_stage == 0 && !K.traceme && !K.stopped_self && pid == K.pid
 //@ macro pre_shuffle_ok() = base_ok() && !K.pivoted && !K.old_detached && !K.old_removed
 //@ macro session_ok() = K.sid_new && (old(r.CTTY) ==> K.ctty)
 //@ macro names_ok() = (workdir != nil ==> K.cwd == addr(workdir)) && (hostname != nil ==> K.host_issued && K.host == addr(hostname) && K.hostlen == uintptr(len(old(r.HostName)))) && (domainname != nil ==> K.domain_issued && K.domain == addr(domainname) && K.domainlen == uintptr(len(old(r.DomainName))))
@@ -288,7 +288,7 @@ package forkexec
 //@   requires r.ExecFile < 2147483648 && len(r.Files) < 1048576
 //@   requires forall j int, k int :: 0 <= j && j < k && k < len(r.Mounts) ==> r.Mounts[j].Target != r.Mounts[k].Target
 //@   requires forall k int :: 0 <= k && k < len(r.Mounts) ==> r.Mounts[k].Target != nil && r.Mounts[k].Flags & 32 == 0 && r.Mounts[k].Target != elemaddr(slash, 0)
-//@   assigns U._all, P.st, S.cb_calls, W.kill_pid, W.kill_count, W.reaped, FD.closed, FD.handed, K.fdt, K.clo, K.pid, K.secbits, K.caps_empty, K.nnp, K.filter, K.filter_flags, K.uid, K.uid_set, K.gid, K.gid_set, K.groups_set, K.ngroups, K.groups_ptr, K.sid_new, K.ctty, K.cwd, K.host, K.hostlen, K.host_issued, K.domain, K.domainlen, K.domain_issued, K.clone_flags, K.clone3, K.clone_cgroup, K.mnt_src, K.mnt_type, K.mnt_flags, K.mnt_data, K.mnt_done, K.remount, K.remount_done, K.nmount, K.pivoted, K.pivot_new, K.pivot_old, K.old_detached, K.old_removed, K.rl_cur, K.rl_max, K.rl_set, K.traceme, K.stopped_self, K.sync_stage, K.sync_wfile, K.sync_rfile, K.idmap_read, K.unshare_cgroup_issued, K.last_trap, K.last_errno, K.reported, K.reported_loc, K.reported_err, K.reported_idx, K.exec_attempts
+//@   assigns U._all, P.st, S.cb_calls, W.kill_pid, W.kill_count, W.reaped, FD.closed, FD.handed, K.fdt, K.clo, K.pid, K.secbits, K.caps_empty, K.nnp, K.filter, K.filter_flags, K.uid, K.uid_set, K.gid, K.gid_set, K.groups_set, K.ngroups, K.groups_ptr, K.sid_new, K.ctty, K.cwd, K.host, K.hostlen, K.host_issued, K.domain, K.domainlen, K.domain_issued, K.clone_flags, K.clone3, K.clone_cgroup, K.mnt_src, K.mnt_type, K.mnt_flags, K.mnt_data, K.mnt_done, K.remount, K.remount_done, K.nmount, K.pivoted, K.pivot_new, K.pivot_old, K.old_detached, K.old_removed, K.rl_cur, K.rl_max, K.rl_set, K.traceme, K.stopped_self, K.sync_stage, K.sync_wfile, K.sync_rfile, K.idmap_read, K.idmap_status, K.unshare_cgroup_issued, K.last_trap, K.last_errno, K.reported, K.reported_loc, K.reported_err, K.reported_idx, K.exec_attempts
 //@   ensures @C10 r.SyncFunc == nil ==> S.cb_calls == old(S.cb_calls)
 //@   ensures @C10 @C07 result.1 == nil && r.SyncFunc != nil ==> S.cb_calls == old(S.cb_calls) + 1
 //@   invokes r.SyncFunc when S.cb_calls == old(S.cb_calls) + 1
